@@ -202,8 +202,23 @@ def run(ctx):
             h = hist.setdefault((json.dumps(c["pt"], sort_keys=True), via, od), [])
             lines.append(dict(c, obs=obs, via=via + ("-defaults-omitted" if od else ""), src="A" if i < len(cases) else "B", nprev=len(h)))
             h.append(len(lines) - 1)
+    # ---- S: enumerations over a 64-bit encoding whose listed values and packet values sit at 2^53, 2^63 and just below 2^64 on the
+    # real side (the specification keeps the small values): a listed value must be found exactly, an unlisted one must fail
+    INT64 = {"k": "int", "w": 64, "enc": "unsigned"}
+    en64 = [{"raw": crit.tv_int(0), "label": "L0"}, {"raw": crit.tv_int(1), "label": "L1"}, {"raw": crit.tv_int(2), "label": "L2"},
+            {"raw": crit.tv_int(5), "label": "L5"}]
+    ns = 0
+    for bi, B in enumerate((2 ** 53, 2 ** 63, 2 ** 64 - 16, 2 ** 53 - 2)):
+        for rawn in (0, 1, 2, 3, 4, 5, 6):
+            for via, od in (("ctor", False), ("xml", False), ("xml", True)):
+                c = case(ptype("enum", INT64, NOCAL, en64), crit.tv_int(rawn))
+                rp, rr = calib.shifted_enum(c["pt"], c["raw"], B)
+                obs = calib.observe(rp, [], rr, via, od, unshift=B)
+                lines.append(dict(c, obs=obs, via=via + ("-defaults-omitted" if od else ""), src="S", nprev=0, shiftbase=bi))
+                ns += 1
+    ctx.extra["S_wide_enumeration_cases"] = ns
     for ln in lines:
-        ctx.count((ln["src"], ln["via"], repr(ln["pt"]), repr(ln["env"]), repr(ln["raw"])))
+        ctx.count((ln["src"], ln["via"], repr(ln["pt"]), repr(ln["env"]), repr(ln["raw"]), ln.get("shiftbase", -1)))
     rej = tables.validate_lines(ctx, "Trace_Calib", lines, "calib", jobs=16)
     for idx, clause in rej.items():
         ln = lines[idx]
@@ -211,6 +226,9 @@ def run(ctx):
         ck = pt["cal"]["default"]["k"] if not pt["cal"]["context"] else "context"
         sig = f"C08/{pt['kind']}/{ck}/{clause[0]}/{ln['obs']['k']}"
         payload = {k: ln[k] for k in ("pt", "env", "raw", "via")}
+        if ln["src"] == "S":
+            sig += "/wide-values"
+            payload["shiftbase"] = ln["shiftbase"]
         if ln["nprev"]:
             via, od = ln["via"].split("-")[0], "omitted" in ln["via"]
             if calib.observe(pt, ln["env"], ln["raw"], via, od) != ln["obs"]:
@@ -239,7 +257,12 @@ def replay(ctx, obj):
     shared = {}
     for h in obj.get("history", []):
         calib.observe(obj["pt"], h["env"], h["raw"], via.split("-")[0], "omitted" in via, shared=shared)
-    obs = calib.observe(obj["pt"], obj["env"], obj["raw"], via.split("-")[0], "omitted" in via, shared=shared)
+    if "shiftbase" in obj:
+        B = (2 ** 53, 2 ** 63, 2 ** 64 - 16, 2 ** 53 - 2)[obj["shiftbase"]]
+        rp, rr = calib.shifted_enum(obj["pt"], obj["raw"], B)
+        obs = calib.observe(rp, [], rr, via.split("-")[0], "omitted" in via, unshift=B)
+    else:
+        obs = calib.observe(obj["pt"], obj["env"], obj["raw"], via.split("-")[0], "omitted" in via, shared=shared)
     ln = dict(obj, obs=obs)
     rej = tables.validate_lines(ctx, "Trace_Calib", [ln], "replay", jobs=1)
     print("observed:", obs, "rejected:", rej)
